@@ -1,6 +1,6 @@
 SPECIFICATION Spec
 CONSTANTS
   Kinds = {"ascii", "ucs2", "gsm7u", "gsm7p"}
-  MaxLen = 6
+  MaxLen = 7
 INVARIANTS RefusesExactlyForeign Inverts ExactOutsideCarveOut
 CHECK_DEADLOCK FALSE
